@@ -349,3 +349,76 @@ Definition step (gd : bool) (s : state) (o : op) : res state :=
   end.
 
 Definition run (gd : bool) (s : state) (ops : list op) : res state := rfold (step gd) ops s.
+
+(** * Specification vocabulary (shared by ClockProofs.v and Properties/C15.v) *)
+
+(** what the theorems assume about the nodes created: an interval is positive and starts
+    no later than the clock does (AtIntervals reads the clock when it is created and panics
+    on a non-positive interval); a snapshot's input is a var *)
+Definition kind_ok (now0 : Z) (cfg : list kind) (k : kind) : Prop :=
+  match k with
+  | KIntervals start every => start <= now0 /\ 0 < every
+  | KSnapshot input _ _ => exists v0, cfg !! input = Some (KVar v0)
+  | _ => True
+  end.
+Definition cfg_ok (now0 : Z) (cfg : list kind) : Prop :=
+  forall n k, cfg !! n = Some k -> kind_ok now0 cfg k.
+
+(** Clock.Now() after a sequence of operations: rewinds are ignored *)
+Definition clock_after (now0 : Z) (ops : list op) : Z :=
+  fold_left (fun c o => match o with OAdvance t => Z.max c t | _ => c end) ops now0.
+
+(** the last step at or before [now]; among steps of equal time the later-listed wins.
+    Read from the end of the list: an earlier-listed step displaces the best so far only
+    if it is strictly later in time. *)
+Fixpoint last_step (steps : list step_) (now : Z) : option step_ :=
+  match steps with
+  | [] => None
+  | st :: r =>
+    let best := last_step r now in
+    if (s_at st <=? now) && match best with None => true | Some b => s_at b <? s_at st end
+    then Some st else best
+  end.
+Definition step_closed (initial : Z) (steps : list step_) (now : Z) : Z :=
+  match last_step steps now with Some st => s_val st | None => initial end.
+
+(** the times at which a node asks to be woken *)
+Definition trigger_of (k : kind) (tau : Z) : Prop :=
+  match k with
+  | KVar _ => False
+  | KAt when => tau = when
+  | KIntervals start every => exists j, 1 <= j /\ tau = start + j * every
+  | KStep _ steps => exists st, st ∈ steps /\ tau = s_at st
+  | KSnapshot _ at_ _ => tau = at_
+  end.
+
+(** Snapshot, as a function of the operations alone: it captures its input's current value
+    in the first pass in which it is observed and the clock has reached its time. *)
+Record ghost := Ghost { g_now : Z; g_obs : nat; g_in : Z; g_cap : option Z }.
+
+Definition ghost_step (n input : nid) (at_ : Z) (g : ghost) (o : op) : ghost :=
+  match o with
+  | OAdvance t => Ghost (Z.max (g_now g) t) (g_obs g) (g_in g) (g_cap g)
+  | OObserve m => if Nat.eqb m n then Ghost (g_now g) (S (g_obs g)) (g_in g) (g_cap g) else g
+  | OUnobserve m => if Nat.eqb m n then Ghost (g_now g) (Nat.pred (g_obs g)) (g_in g) (g_cap g) else g
+  | OSetInput m v => if Nat.eqb m input then Ghost (g_now g) (g_obs g) v (g_cap g) else g
+  | OStabilize =>
+    match g_cap g with
+    | None => if (0 <? g_obs g)%nat && (at_ <=? g_now g)
+              then Ghost (g_now g) (g_obs g) (g_in g) (Some (g_in g)) else g
+    | Some _ => g
+    end
+  end.
+
+Definition snapshot_closed (n input : nid) (at_ before : Z) (now0 v0 : Z) (ops : list op) : Z :=
+  match g_cap (fold_left (ghost_step n input at_) ops (Ghost now0 0 v0 None)) with
+  | Some v => v
+  | None => before
+  end.
+
+(** operations name existing nodes *)
+Definition op_ok (len : nat) (o : op) : Prop :=
+  match o with
+  | OObserve n | OUnobserve n | OSetInput n _ => (n < len)%nat
+  | _ => True
+  end.
